@@ -1071,7 +1071,14 @@ class StubsStringGenerator:
             return
 
         module_id = self._get_module_id(get_actual_id=True).replace("/", ".")
-        if module_id not in import_qname:
+        if self.currently_creating_reexport_data:
+            # The file of a reexported declaration belongs to the reexporting package, only what is defined directly in
+            # that package needs no import
+            is_defined_here = import_qname.rsplit(".", maxsplit=1)[0] == module_id
+        else:
+            # "pkg.model" does not define the classes of "pkg.model_utils"
+            is_defined_here = f"{import_qname}.".startswith(f"{module_id}.")
+        if not is_defined_here:
             # We need the full path for an import from the same package, but we sometimes don't get enough information,
             # therefore we have to search for the class and get its id
             import_qname_path = import_qname.replace(".", "/")
